@@ -339,8 +339,10 @@ impl Check for SweepCheck {
                 for c in &bw.conns {
                     for i in 0..=c.n_io {
                         let mut kind = FAULT_MENU[k % FAULT_MENU.len()];
-                        // C11 also covers a transport that accepts nothing (`Ok(0)`) while disconnect() writes
-                        if self.id == "C11" && k % 9 == 8 {
+                        // ... and a transport that accepts nothing (`Ok(0)`): the call reports
+                        // WriteZero, the handle stays up (disconnect() excepted) and the rest of
+                        // the program runs on the same connection
+                        if k % 9 == 8 {
                             kind = FaultKind::WriteZero;
                         }
                         k += 1;
